@@ -573,7 +573,7 @@ func (st *StateDB) createObject(addr common.Address) (newobj, prev *stateObject)
 // Carrying over the balance ensures that Ether doesn't disappear.
 func (st *StateDB) CreateAccount(addr common.Address) {
 	newObj, prevObj := st.createObject(addr)
-	if prevObj != nil {
+	if prevObj != nil && !prevObj.deleted {
 		newObj.setBalance(prevObj.data.Balance)
 	}
 }
